@@ -37,7 +37,9 @@ def oracle(case):
         return "pytezos-failed"  # C01's subject
     known = "MAP-empty-type-change" in xc.LAST_TRACE
     if len(items) != len(static):
-        return "depth-mismatch"  # C01's subject
+        raise Violation("the stack holds %d values, its static type has %d slots (%s); code %s" % (
+            len(items), len(static), static, xc._short(code)), case,
+            "known:map-empty-type-change" if known else "stack-depth:" + _blame(code))
     for i, (t, item) in enumerate(zip(static, items)):
         ty, _ = interp.read_item(item)
         if ty != t:
@@ -53,7 +55,7 @@ def oracle(case):
 
 def _blame(code):
     names = gp.instr_names(code)
-    for n in ("SPLIT_TICKET", "JOIN_TICKETS", "MAP", "EDIV", "GET_AND_UPDATE", "UPDATE", "APPLY", "EXEC", "CONS", "UNPACK"):
+    for n in ("SPLIT_TICKET", "JOIN_TICKETS", "MAP", "EDIV", "GET_AND_UPDATE", "UPDATE", "UNPAIR", "APPLY", "EXEC", "CONS", "UNPACK"):
         if n in names:
             return n
     return "other"
@@ -107,7 +109,7 @@ def oracle_contract(case):
 
 @st.composite
 def cases(draw, size, depth):
-    prog = draw(gp.programs(n_inputs=(1, 3), size=size, depth=depth, profile=draw(st.sampled_from(["core", "collections", "collections", "tickets"]))))
+    prog = draw(gp.programs(n_inputs=(1, 3), size=size, depth=depth, profile=draw(st.sampled_from(["core", "collections", "collections", "tickets", "combs", "combs"]))))
     return {"inputs": prog["inputs"], "code": prog["code"], "env": xc.env_to_json(draw(gp.env_strategy()))}
 
 
